@@ -292,10 +292,17 @@ def gen(rng, tier):
                 chain.append(f)
         yield Case("detchain", [esc(fasta(rows)), ",".join(chain)], True, "chain-%d" % len(chain))
     # --- seqboot + distance = distboot ----------------------------------------------------------------
-    for _ in range(6 if quick else 80):
+    for m in ("k2p", "jc", "pdist", "f81", "tn93", "f84", "rawdist"):
+        for fl in ("", " -r"):
+            for _ in range(1 if quick else 6):
+                rows = nt_alignment(rng, 3, 8, 10, 80)
+                yield Case("detboot", [esc(fasta(rows)), m + fl, rng.randint(2, 5), rng.choice(["1/1", "1/2", "3/4"]),
+                                       rng.randint(0, 2 ** 31 - 1), rng.choice(THREADS)], True, "distboot")
+    for _ in range(4 if quick else 60):
         rows = nt_alignment(rng, 3, 8, 10, 80)
-        yield Case("detboot", [esc(fasta(rows)), rng.choice(["k2p", "jc", "pdist", "f81", "tn93"]), rng.randint(1, 4),
-                               rng.choice(["1/1", "1/2", "3/4", "1/3"]), rng.randint(0, 2 ** 31 - 1), rng.choice(THREADS)], True, "distboot")
+        yield Case("detboot", [esc(fasta(rows)), rng.choice(["k2p", "jc", "pdist", "f81", "tn93", "f84", "rawdist"]) + rng.choice(["", "", " -r"]),
+                               rng.randint(1, 5), rng.choice(["1/1", "1/2", "3/4", "1/3"]), rng.randint(0, 2 ** 31 - 1), rng.choice(THREADS)],
+                   True, "distboot")
     # --- exact bytes of seeded commands -----------------------------------------------------------------
     for c in gen_seeded(rng, tier):
         yield c
